@@ -387,9 +387,21 @@ func FilterDelegate(p *core.Prog, r *core.Report) {
 func StrandTally(p *core.Prog, r *core.Report) {
 	r.Rule("STRAND-TALLY", "gts.checkStrand, evaluated for all 26 non-empty combinations of 0..2 forward, reverse and both-strand parts, returns StrandForward iff all parts are forward, StrandReverse iff all are reverse, StrandBoth otherwise (the per-part switch and the final test are interpreted over the two tallies)", 1)
 	info := p.Info(core.PkgGts)
-	fd := p.FuncDecl(core.PkgGts, "checkStrand")
+	// the function that tallies the parts: checkStrand, or CheckStrand itself when the two are one
+	var fd *ast.FuncDecl
+	for _, name := range []string{"checkStrand", "CheckStrand"} {
+		cand := p.FuncDecl(core.PkgGts, name)
+		if cand == nil || cand.Body == nil {
+			continue
+		}
+		for _, st := range cand.Body.List {
+			if _, ok := st.(*ast.RangeStmt); ok && fd == nil {
+				fd = cand
+			}
+		}
+	}
 	key := "gts.checkStrand"
-	if fd == nil || fd.Body == nil {
+	if fd == nil {
 		r.Und("STRAND-TALLY", key+"|anchor", "-", "anchor-unresolved")
 		return
 	}
